@@ -663,7 +663,7 @@ fn c09_layouts<S: ShortGroupSignatureScheme + 'static>(em: &mut Emitter, rng: &m
 /// identical signed values in different representations (text vs bytes with another print flag, number vs the
 /// scalar of that number, claims of different schemas): the honest holder must succeed — equality is about the
 /// signed value
-fn c09_representations<S: ShortGroupSignatureScheme + 'static>(em: &mut Emitter, rng: &mut Rng, suite: &str) {
+pub fn c09_representations<S: ShortGroupSignatureScheme + 'static>(em: &mut Emitter, rng: &mut Rng, suite: &str, tag: &str) {
     use credx::credential::{ClaimSchema, CredentialSchema};
     use credx::issuer::Issuer;
     let schema_b = |second: ClaimType, pf: bool| {
@@ -722,7 +722,98 @@ fn c09_representations<S: ShortGroupSignatureScheme + 'static>(em: &mut Emitter,
         };
         em.count(&format!("representations:{}:{}", name, ok));
         if !ok {
-            em.violation("c09:equal-values-rejected:representation", format!("{}: identical signed values in two representations ({}) are not accepted by an honest create / verify", suite, name), json!({"suite": suite, "case": name, "a": serde_json::to_value(&ca).unwrap_or_default(), "b": serde_json::to_value(&cb).unwrap_or_default()}));
+            em.violation(&format!("{}:equal-values-rejected:representation", tag), format!("{}: identical signed values in two representations ({}) are not accepted by an honest create / verify", suite, name), json!({"suite": suite, "case": name, "a": serde_json::to_value(&ca).unwrap_or_default(), "b": serde_json::to_value(&cb).unwrap_or_default()}));
+        }
+    }
+}
+
+/// The equated claim sits at another position in each credential and the references are listed in an order that is not
+/// the lexicographic order of the statement ids; holder and verifier each obtain the schema from its wire form
+/// (JSON / CBOR / BARE). The statement every party holds must be the authored one: honest holder with equal values
+/// accepted, a holder whose values at the *stated* positions differ not accepted (even when other positions coincide).
+pub fn equality_positions<S: ShortGroupSignatureScheme + 'static>(em: &mut Emitter, rng: &mut Rng, suite: &str, tag: &str) {
+    use credx::credential::{ClaimSchema, CredentialSchema};
+    use credx::issuer::Issuer;
+    use std::collections::BTreeMap;
+    let mk = |labels: [&str; 2]| {
+        CredentialSchema::new(
+            Some("verif-pos"),
+            None,
+            &[],
+            &[
+                ClaimSchema { claim_type: ClaimType::Revocation, label: "id".into(), print_friendly: false, validators: vec![] },
+                ClaimSchema { claim_type: ClaimType::Hashed, label: labels[0].into(), print_friendly: true, validators: vec![] },
+                ClaimSchema { claim_type: ClaimType::Hashed, label: labels[1].into(), print_friendly: true, validators: vec![] },
+            ],
+        )
+        .unwrap()
+    };
+    let (_pa, mut ia) = Issuer::<S>::new(&mk(["value", "other"]));
+    let (_pb, mut ib) = Issuer::<S>::new(&mk(["other", "value"]));
+    let x = format!("X-{}", rng.below(1000));
+    let z = format!("Z-{}", rng.below(1000));
+    let w = format!("W-{}", rng.below(1000));
+    // (name, A = [id, value, other], B = [id, other, value], stated positions A[1] / B[2] equal?)
+    let cases: Vec<(&str, [String; 2], [String; 2], bool)> = vec![
+        ("equal-at-stated-positions", [x.clone(), w.clone()], [z.clone(), x.clone()], true),
+        ("equal-everywhere", [x.clone(), x.clone()], [x.clone(), x.clone()], true),
+        ("equal-only-at-exchanged-positions", [x.clone(), w.clone()], [w.clone(), z.clone()], false),
+    ];
+    for (name, a, b, equal) in cases {
+        let ba = ia.sign_credential(&[RevocationClaim::from(format!("pos-a-{}", name)).into(), HashedClaim::from(a[0].as_str()).into(), HashedClaim::from(a[1].as_str()).into()]);
+        let bb = ib.sign_credential(&[RevocationClaim::from(format!("pos-b-{}", name)).into(), HashedClaim::from(b[0].as_str()).into(), HashedClaim::from(b[1].as_str()).into()]);
+        let (ba, bb) = match (ba, bb) {
+            (Ok(a), Ok(b)) => (a, b),
+            _ => continue,
+        };
+        for (ida, idb) in [("zz-passport", "aa-licence"), ("aa-passport", "zz-licence"), ("s10", "s9")] {
+            let sa = SignatureStatement { disclosed: Default::default(), id: ida.to_string(), issuer: ba.issuer.clone() };
+            let sb = SignatureStatement { disclosed: Default::default(), id: idb.to_string(), issuer: bb.issuer.clone() };
+            let mut m = IndexMap::new();
+            m.insert(ida.to_string(), 1usize);
+            m.insert(idb.to_string(), 2usize);
+            let authored: BTreeMap<String, usize> = m.iter().map(|(k, v)| (k.clone(), *v)).collect();
+            let eq = EqualityStatement { id: "eq".to_string(), ref_id_claim_index: m };
+            let schema = PresentationSchema::new_with_id(&[sa.into(), sb.into(), eq.into()], "pos");
+            let mut creds: IndexMap<String, credx::presentation::PresentationCredential<S>> = IndexMap::new();
+            creds.insert(ida.to_string(), ba.credential.clone().into());
+            creds.insert(idb.to_string(), bb.credential.clone().into());
+            let nonce = rng.bytes(16);
+            let wires: Vec<(&str, Option<PresentationSchema<S>>)> = vec![
+                ("in-memory", Some(schema.clone())),
+                ("json", serde_json::to_string(&schema).ok().and_then(|t| call(|| serde_json::from_str::<PresentationSchema<S>>(&t)).ok())),
+                ("cbor", serde_cbor::to_vec(&schema).ok().and_then(|t| call(|| serde_cbor::from_slice::<PresentationSchema<S>>(&t)).ok())),
+                ("bare", serde_bare::to_vec(&schema).ok().and_then(|t| call(|| serde_bare::from_slice::<PresentationSchema<S>>(&t)).ok())),
+            ];
+            for (wire, parsed) in wires {
+                let parsed = match parsed {
+                    Some(p) => p,
+                    None => {
+                        em.count(&format!("positions:{}:undecodable", wire));
+                        continue;
+                    }
+                };
+                em.oracle_case(&format!("{} positions {} {}/{} {}", suite, name, ida, idb, wire));
+                // the statement the party holds is the authored one
+                let held: Option<BTreeMap<String, usize>> = parsed.statements.get("eq").and_then(|s| match s {
+                    Statements::Equality(e) => Some(e.ref_id_claim_index.iter().map(|(k, v)| (k.clone(), *v)).collect()),
+                    _ => None,
+                });
+                if held.as_ref() != Some(&authored) {
+                    em.violation(&format!("{}:equality-statement-changed-by-wire-form", tag), format!("{}: equality statement authored as {:?} is held as {:?} after a {} round trip", suite, authored, held, wire), json!({"suite": suite, "wire": wire, "authored": authored, "held": held}));
+                }
+                let ok = match call(|| Presentation::create(&creds, &parsed, &nonce)) {
+                    Out::Ok(p) => call(|| p.verify(&parsed, &nonce)).is_ok(),
+                    _ => false,
+                };
+                em.count(&format!("positions:{}:{}:{}", name, wire, ok));
+                if equal && !ok {
+                    em.violation(&format!("{}:equal-values-rejected:positions", tag), format!("{}: equal values at the stated positions ({}), schema via {}, ids {}/{}: honest create / verify fails", suite, name, wire, ida, idb), json!({"suite": suite, "case": name, "wire": wire, "ids": [ida, idb]}));
+                }
+                if !equal && ok {
+                    em.violation(&format!("{}:unequal-values-accepted:positions", tag), format!("{}: values at the stated positions differ ({}), schema via {}, ids {}/{}: accepted", suite, name, wire, ida, idb), json!({"suite": suite, "case": name, "wire": wire, "ids": [ida, idb]}));
+                }
+            }
         }
     }
 }
@@ -743,10 +834,12 @@ pub fn gen_c09(em: &mut Emitter, rng: &mut Rng) {
         c09_layouts::<Ps>(em, &mut rng.sub(9002), "ps");
     }
     if em.mine(base + 2) {
-        c09_representations::<Bbs>(em, &mut rng.sub(9005), "bbs");
+        c09_representations::<Bbs>(em, &mut rng.sub(9005), "bbs", "c09");
+        equality_positions::<Bbs>(em, &mut rng.sub(9007), "bbs", "c09");
     }
     if em.mine(base + 3) {
-        c09_representations::<Ps>(em, &mut rng.sub(9006), "ps");
+        c09_representations::<Ps>(em, &mut rng.sub(9006), "ps", "c09");
+        equality_positions::<Ps>(em, &mut rng.sub(9008), "ps", "c09");
     }
     // completeness half: honest holders with identical values under overlapping / bridging equality statements
     crate::c03::equality_graphs::<Bbs>(em, &mut rng.sub(9003), "bbs");
